@@ -1,4 +1,5 @@
 import XehModel.Driver.VMCodec
+import XehModel.Driver.Sess
 
 namespace Xeh.Driver.C14
 
@@ -6,6 +7,7 @@ namespace Xeh.Driver.C14
 def handle (args : List String) : String :=
   match args with
   | "vm" :: rest => Xeh.VMCodec.handleVm rest
+  | "sess" :: rest => Sess.handle rest
   | _ => "bad-op"
 
 end Xeh.Driver.C14
